@@ -49,7 +49,7 @@ pub struct Case {
     pub xint: Vec<f64>,
 }
 
-pub const CLASSES: [&str; 12] = [
+pub const CLASSES: [&str; 13] = [
     "diagonal",
     "integer-known-solution",
     "dense-gauss",
@@ -62,8 +62,9 @@ pub const CLASSES: [&str; 12] = [
     "sym-indef-posdiag",
     "route-flip",
     "nearly-symmetric",
+    "svd-graded",
 ];
-const GENERAL: [u8; 9] = [0, 1, 2, 3, 4, 5, 6, 7, 8];
+const GENERAL: [u8; 10] = [0, 1, 2, 3, 4, 5, 6, 7, 8, 12];
 const SYMINDEF: [u8; 1] = [9];
 const ROUTEFLIP: [u8; 2] = [10, 11];
 
@@ -210,6 +211,11 @@ pub fn build_case(class: u8, n: usize, k: usize, salt: u64) -> Case {
             let integer = rng.coin();
             build::sym_indef_posdiag(&mut rng, n, integer)
         }
+        12 => {
+            // unstructured ill-conditioning: singular values graded to cond 10^0..10^10
+            let e = rng.int(0, 10) as f64;
+            build::svd_graded(&mut rng, n, e)
+        }
         11 => {
             // SPD plus an asymmetric perturbation of relative size 1e-3 .. 1e-12 in a few entries: far
             // above the predicate's threshold, so this is a general (LU) problem; a sloppier symmetry
@@ -250,10 +256,18 @@ pub fn build_case(class: u8, n: usize, k: usize, salt: u64) -> Case {
         let prod = la::matmul_dd(&a, &x, n, n, k);
         xint = x;
         prod.iter().map(|v| v.f()).collect() // exact: integers below 2^15
-    } else if rng.below(4) == 0 {
-        build::ints(&mut rng, n, k, -9, 9)
     } else {
-        build::gauss(&mut rng, n, k)
+        match rng.below(6) {
+            0 => build::ints(&mut rng, n, k, -9, 9),
+            // consistent right-hand side B = fl(A·X) for a moderate X: the solution is O(1) however
+            // ill-conditioned A is, so ‖A‖‖x‖+‖b‖ does not hide an error of size ε·cond (a forward-stable
+            // but not backward-stable formula — e.g. Cramer's rule — passes random B and fails here)
+            1 | 2 => {
+                let x = if rng.coin() { build::ints(&mut rng, n, k, -9, 9) } else { build::gauss(&mut rng, n, k) };
+                la::matmul_dd(&a, &x, n, n, k).iter().map(|v| v.f()).collect()
+            }
+            _ => build::gauss(&mut rng, n, k),
+        }
     };
     Case { class, n, k, only: 0, a, b, xint }
 }
@@ -491,7 +505,7 @@ fn fixed_symindef() -> Vec<Case> {
 pub fn run(ctx: &mut Ctx) {
     ctx.rule = "a case is (class, n, k, salt) expanded deterministically into A (n x n) and B (n x k): class in {diagonal, integer with known \
 solution, dense N(0,1), SPD Gram, SPD graded to cond 1e0..1e10, strictly diagonally dominant, permuted+scaled triangular, rows scaled by \
-10^±5, pivot-critical (diagonal x 1e-14 / zero diagonal entries / singular leading minor / zero leading block), symmetric indefinite with \
+10^±5, Householder·diag(graded singular values)·Householder to cond 1e10, pivot-critical (diagonal x 1e-14 / zero diagonal entries / singular leading minor / zero leading block), symmetric indefinite with \
 positive diagonal (eigen-signs verified by the oracle's Jacobi), SPD with one entry moved across the symmetry threshold, SPD plus an asymmetric perturbation of 1e-3..1e-12}; n in 1..=32 weighted \
 toward 1-9 and 8k±1; k in 1..=6; plus the full (class, n) grid and hand-written symmetric indefinite matrices run once per entry point. All six \
 entry points run on every case. Non-trivial: n >= 2 and class != diagonal; distinct by hash of (class, n, k, entry selector, entries of A and B). \
@@ -526,7 +540,7 @@ Cases whose oracle condition estimate exceeds 1e12 are counted under '<class>/sk
             }
         }
     }
-    ctx.exhaustive.push(format!("every (class, n) pair, 12 classes x n = 1..=32, {} salt(s) each", per));
+    ctx.exhaustive.push(format!("every (class, n) pair, 13 classes x n = 1..=32, {} salt(s) each", per));
 
     let n_gen = ctx.scale(24_000, 400_000);
     ctx.run_prop_par("systems", n_gen, 16, || strat(&GENERAL), check);
